@@ -117,6 +117,22 @@ static int worker(int argc, char **argv) {
             if (k < 0) break;
         }
     }
+    /* byte-value layer: every byte value (pairs for two '?') in each component position of a few templates */
+    {
+        static const char *const TPL[] = { "?", "/?", "a://?", "a://a:?", "a://?@a/", "a://a?", "a://a/?", "a://a/a??", "a://a/a#?", "?://a", "a:?/a", "a://[?]/", "a://[a]?", "a://a:9?", "//?",
+                                           "??", "a://??", "a://a:??", "a://a@??", "/a??", "a://[??" };
+        long c2 = 0;
+        for (size_t t = 0; t < sizeof TPL / sizeof TPL[0]; t++) {
+            int len = (int) strlen(TPL[t]), nq = 0; for (int i = 0; i < len; i++) nq += TPL[t][i] == '?';
+            /* a literal '?' of the template text is written as 0x3f by the loop anyway */
+            for (int v = 0; v < (nq >= 2 ? 65536 : 256); v++) {
+                if (c2++ % hx_shard_n != hx_shard_i) continue;
+                int k = 0; for (int i = 0; i < len; i++) cur[i] = TPL[t][i] == '?' ? (uint8_t) (k++ == 0 ? (v & 0xff) : k == 2 ? (v >> 8) : '?') : (uint8_t) TPL[t][i];
+                curlen = len;
+                if (!hx_inflight_tick()) { n_eval++; check(cur, len, 0); }
+            }
+        }
+    }
 out:
     hx_emit_stat("executions", n_eval); hx_emit_stat("distinct_outcomes", (long long) shapes.cnt);
     hx_emit_sample("target \"a://a@[a]:9/a?a#a\" -> scheme, user, host, port, path, query, fragment re-joined and compared byte for byte");
